@@ -16,4 +16,12 @@ STATUS = {
               "updated after every fill and reset only by reset_trade_vol; Order.vol has no writer outside the fill and modify_order. "
               "These are necessary structural premises of the ledger property, not numeric reconciliation of particular histories."),
         note=TRUST + "Assumes valid histories (volumes >= 1, traded volume < 2^32)."),
+    "C04": dict(
+        claimed=True,
+        technique="order-entity typestate (abstract interpretation with branch refinement, context-sensitive summaries) + write census + effect analysis of guard-failing CFG slices",
+        text=("Sound abstract interpretation of the status/priority-map membership of every order entity through place/cancel/modify/"
+              "loader and their callees: every status write checked against the predecessor table in all calling contexts, API entry->exit "
+              "relation within the documented machine, terminal orders never written. Exact census rules for end_time/arr_time pairing with "
+              "the clock, immutability of side/trader/id/start_vol, dense ids, and empty effect of the guard-failing slices (redundant requests)."),
+        note=TRUST + "Assumes ids refer to existing orders; Filled<=>vol==0 is itself checked (filled-iff-zero)."),
 }
